@@ -293,10 +293,10 @@ Theorem C08_smarts_full_errors : forall s e, smarts_full s = Err e -> vee e = tr
 Proof. exact smarts_full_errors. Qed.
 Print Assumptions C08_smarts_full_errors.
 
-(* smarts_total for the whole function is FALSE for the unchanged code (known finding smarts-stereo-popitem-keyerror):
-   popitem() on a direction-mark dictionary that a neighbouring bond already emptied *)
+(* smarts_total for the whole function is FALSE for the unchanged code (known finding smarts-stereo-popitem-keyerror, residual
+   after fix f821fac): a ring closure closing on its own atom next to one direction mark pops the same dictionary twice *)
 Theorem C08_smarts_full_total_refuted :
-  smarts_full "C/C=C(/C)C(/C)=C/C" = Err KeyError /\ smarts_full "F/C(=C/F)=C/F" = Err KeyError.
+  smarts_full "F/C=1=1" = Err KeyError /\ smarts_full "F/C1=1" = Err KeyError.
 Proof. exact smarts_full_total_refuted. Qed.
 Print Assumptions C08_smarts_full_total_refuted.
 
